@@ -774,9 +774,8 @@ def r15_11(run):
         if isinstance(e, ast.Compare) and all(isinstance(o, (ast.Is, ast.IsNot, ast.In, ast.NotIn)) for o in e.ops):
             return True  # identity / membership tests give a Python bool
         if isinstance(e, ast.Name):
-            defs = [a for a in assignments(fi.node) if any(isinstance(t, ast.Name) and t.id == e.id for t in a.targets)] \
-                if hasattr(fi, "node") else []
-            return bool(defs) and all(native(a.value, fi) for a in defs)
+            defs = assignments(fi.node, e.id)
+            return bool(defs) and all(d[2] is None and native(d[1], fi) for d in defs)
         if isinstance(e, (ast.Tuple, ast.List)):
             return all(native(x, fi) for x in e.elts)
         return False
